@@ -404,6 +404,9 @@ func (m *Machine) exec(st *State, fr *Frame, ins ssa.Instruction) {
 		p := m.val(st, fr, x.Addr).(*Ptr)
 		m.nilCheck(st, fr, x, p, "store")
 		m.guardAccess(st, fr, x, p, true)
+		if !m.isGhostFn(fr.fn) {
+			m.frameCheck(st, fr, x, p, "store")
+		}
 		m.Store(st, p, m.val(st, fr, x.Val))
 		next()
 	case *ssa.MakeSlice:
@@ -1331,6 +1334,9 @@ func (m *Machine) mapUpdate(st *State, fr *Frame, x *ssa.MapUpdate) {
 	v := m.val(st, fr, x.Value)
 	m.oblige(st, fr, "safe.nilmap", fmt.Sprint(m.ordinal(fr.fn, x, "")), c.Neq(ref, c.Int(0)), m.safeTags(), "assignment to entry in nil map")
 	m.guardMap(st, fr, x, x.Map, true)
+	if !m.guardedMaps[ref.id] && !m.isGhostFn(fr.fn) {
+		m.frameCheck(st, fr, x, &Ptr{Mem: name, Ref: ref, Elem: mt.Elem()}, "map update")
+	}
 	ks := k.sort
 	pa, pn := m.mapPresent(st, x.Map.Type(), ref)
 	st.heap[pn] = c.Store(pa, ref, c.Store(c.Select(pa, ref), k, c.T))
